@@ -13,8 +13,8 @@ package main
 import (
 	"fmt"
 	"go/token"
-	"os"
 	"go/types"
+	"os"
 	"sort"
 	"strings"
 
@@ -32,19 +32,43 @@ func (m *Model) RunLoadAll(s *Sink, rule string) {
 	// the loader: registers *ast.Program values in a map inside a loop
 	type regSite struct {
 		fn *ssa.Function
-		mu *ssa.MapUpdate
+		mu ssa.Instruction // the map update, or the call of the helper that makes it for its parameter
 		li *loopInfo
 	}
 	var sites []regSite
+	// a helper that stores its own parameter (`func (l *loader) register(name, prog)`) registers nothing of its own:
+	// the registrations are its call sites
+	regHelper := map[*ssa.Function]bool{}
+	for _, fn := range rootFns {
+		for _, b := range fn.Blocks {
+			for _, in := range b.Instrs {
+				if mu, ok := in.(*ssa.MapUpdate); ok && progT != nil {
+					if pn := ptrNamed(mu.Value.Type()); pn != nil && pn == progT {
+						if _, isP := mu.Value.(*ssa.Parameter); isP {
+							regHelper[fn] = true
+						}
+					}
+				}
+			}
+		}
+	}
 	for _, fn := range rootFns {
 		loops := naturalLoops(fn)
 		for _, b := range fn.Blocks {
 			for _, in := range b.Instrs {
-				mu, ok := in.(*ssa.MapUpdate)
-				if !ok || progT == nil {
-					continue
-				}
-				if pn := ptrNamed(mu.Value.Type()); pn == nil || pn != progT {
+				var mu ssa.Instruction
+				switch x := in.(type) {
+				case *ssa.MapUpdate:
+					if pn := ptrNamed(x.Value.Type()); progT == nil || pn == nil || pn != progT || regHelper[fn] {
+						continue
+					}
+					mu = x
+				case *ssa.Call:
+					if sc := x.Call.StaticCallee(); sc == nil || !regHelper[sc] {
+						continue
+					}
+					mu = x
+				default:
 					continue
 				}
 				// in the loop over the files, or in a function that loads one file (the whole function is a pass then)
@@ -171,7 +195,7 @@ func (m *Model) RunLoadAll(s *Sink, rule string) {
 			target := st.mu.Block()
 			idx := 0
 			for i, in := range target.Instrs {
-				if in == ssa.Instruction(st.mu) {
+				if in == st.mu {
 					idx = i
 				}
 			}
